@@ -79,7 +79,7 @@ CLAIMS.update({
 })
 
 CLAIMS.update({
-    "C03": dict(text="Theorems (alpha = 1, And and Or of every arity, Implies; weights >= 0, any bias, all operand/operator bounds in [0,1]): C03_not_tighter (every assignment satisfying all given bounds survives upward+downward, connective and every operand), C03_connective_exact (both ends of the connective's new interval are attained by feasible assignments), C03_operands_attained (both ends of the new interval of every positively weighted operand are attained), C03_infeasible_contradiction (no feasible assignment => crossed bounds at the connective). Witnesses are explicit (corners of the operand box and points on segments between corners); Or and Implies follow from And by duality (truth function, upward, downward, aggregation). Not proved: zero-weight operands keep their interval (oracle only). First-order connectives over joined groundings are checked on the implementation with a two-sided per-row oracle; an independent exact interval-arithmetic hull oracle checks every propositional scenario.",
+    "C03": dict(text="Theorems (alpha = 1, And and Or of every arity, Implies; weights >= 0, any bias, all operand/operator bounds in [0,1]): C03_not_tighter (every assignment satisfying all given bounds survives upward+downward, connective and every operand), C03_connective_exact (both ends of the connective's new interval are attained by feasible assignments), C03_operands_attained (both ends of the new interval of EVERY operand are attained, zero-weight operands included), C03_infeasible_contradiction (no feasible assignment => crossed bounds at the connective). Witnesses are explicit (corners of the operand box and points on segments between corners); Or and Implies follow from And by duality (truth function, upward, downward, aggregation). First-order connectives over joined groundings are checked on the implementation with a two-sided per-row oracle; an independent exact interval-arithmetic hull oracle checks every propositional scenario.",
                 design="7/C03", technique="Coq proof (soundness lemmas + explicit segment witnesses instead of an intermediate value theorem) + exact differential correspondence + independent interval-arithmetic hull oracle on the implementation",
                 note=NOTE_TB),
 })
